@@ -273,3 +273,42 @@ def build_print(tier):
             raise BuildError('print driver does not compile against the current /repo/include:\n' + p.stdout[-3000:])
         prune_builds('print-%s' % tier, keep=2)
         return d
+
+def build_coro(skip=()):
+    """C++20 coroutine driver (ASan+UBSan, detect_stack_use_after_return), cached by content hash"""
+    import gen_coro
+    srcs = [os.path.join(HARNESS, 'gen_coro.py'), os.path.join(HARNESS, 'corodrv', 'crt.hpp'), os.path.join(HARNESS, 'corodrv', 'cmain.cpp'),
+            os.path.join(HARNESS, 'coro', 'mini_coro.hpp')]
+    h = tree_hash(srcs)
+    if skip:
+        h += '-' + hashlib.sha1(repr(sorted(skip)).encode()).hexdigest()[:6]
+    d = os.path.join(BUILD, 'coro-' + h)
+    exe = os.path.join(d, 'drv_coro')
+    with Lock(os.path.join(BUILD, 'coro.lock')):
+        if os.path.exists(exe):
+            os.utime(d)
+            return d
+        t0 = time.time()
+        shutil.rmtree(d, ignore_errors=True)
+        gen_coro.main(d, set(skip))
+        for f in ('crt.hpp', 'cmain.cpp'):
+            shutil.copy(os.path.join(HARNESS, 'corodrv', f), d)
+        shutil.copy(os.path.join(HARNESS, 'coro', 'mini_coro.hpp'), d)
+        cpps = sorted(f for f in os.listdir(d) if f.endswith('.cpp'))
+        flags = ['-std=c++20'] + SAN_FLAGS + ['-DTROMPELOEIL_SANITY_CHECKS', '-I' + INCLUDE]
+        res = compile_many([(['g++'] + flags + ['-c', c, '-o', c + '.o'], d) for c in cpps])
+        bad = [(c, r) for c, r in zip(cpps, res) if r[0] != 0]
+        if bad:
+            msg = bad[0][1][1]
+            shutil.rmtree(d, ignore_errors=True)
+            raise BuildError('coroutine driver does not compile against the current /repo/include:\n' + msg[-3000:])
+        p = subprocess.run(['g++', '-fsanitize=address,undefined'] + [c + '.o' for c in cpps] + ['-o', 'drv_coro'], cwd=d,
+                           stdout=subprocess.PIPE, stderr=subprocess.STDOUT, text=True)
+        if p.returncode != 0:
+            shutil.rmtree(d, ignore_errors=True)
+            raise BuildError(p.stdout[-3000:])
+        for c in cpps:
+            os.unlink(os.path.join(d, c + '.o'))
+        log('built coroutine driver in %.0fs' % (time.time() - t0))
+        prune_builds('coro')
+        return d
